@@ -769,14 +769,17 @@ func checkAndDeleteKey(ctx context.Context,
 		var e error
 		attrs, e = blob.GetAttr(ctx, key)
 		if !errors.Is(e, status.ErrNotExists) {
-			return err
+			return e
 		}
 
 		return nil
 	},
 		backoff.WithContext(insistantBackoff(), ctx),
 	); err != nil {
-		logger.Error("retrieving blob attributes", zap.Error(err))
+		// the age of the blob is unknown: it cannot be told apart from a blob created after the index
+		logger.Error("retrieving blob attributes: keeping blob", zap.Error(err))
+
+		return nil
 	}
 
 	// the blob has been created after the index: skip
